@@ -93,6 +93,7 @@ type Machine struct {
 	Log    []string // handler invocations, in order
 	Writes []string // storer writes the script must have issued, in order
 	Jumps  int      // jumps performed
+	Notes  []string // host actions performed between calls (for diagnostics)
 	// MaxJumps bounds the jumps along one path (looping programs are explored to a finite horizon).
 	MaxJumps   int
 	sinceYield int
